@@ -32,7 +32,7 @@ REQUIRED_HOOKS = [
     "BeckeRTransform.transform_1d_grid", "InverseRTransform.transform", "BeckeRTransform.find_parameter",
 ]
 REQUIRED_FAMILIES = ["api-aliasing", "ode-callbacks", "poisson", "transforms"]
-BUDGET = {"quick": 420, "thorough": 2400}
+BUDGET = {"quick": 420, "thorough": 3600}
 MODES = ("fresh", "readonly", "view", "alias")
 RULE = (
     "Generic byte-snapshot monitor on every public callable of every grid module (183 wrapped; blake2b of bytes+dtype+shape+writeable flag of every "
@@ -560,11 +560,17 @@ def scn_molgrid(R, rng):
     size = int(sum(a.size for a in atgrids))
     cache = {}
 
+    def ro(v):
+        if mk.mode == "readonly":
+            v = v.view()
+            v.setflags(write=False)
+        return v
+
     def fn_cached(points, atc, atn, indices):
-        return cache.setdefault(len(points), np.full(len(points), 1.0 / 1.0))
+        return ro(cache.setdefault(len(points), np.full(len(points), 1.0)))
 
     def fn_fresh(points, atc, atn, indices):
-        return np.full(len(points), 1.0)
+        return ro(np.full(len(points), 1.0))
 
     aw = mk(rng.uniform(0.2, 1.0, size), "aim_weights-array")
     mgs = {}
@@ -866,6 +872,115 @@ def scn_coulomb_utils(R, rng):
     R.keep("d2c-0", R.call("convert_derivative_from_spherical_to_cartesian", utils.convert_derivative_from_spherical_to_cartesian, 1.0, 2.0, 3.0, 0.0, 0.3, 0.0))
     for t, dim in (("cartesian", 3), ("cartesian", 2), ("cartesian", 1), ("radial", 3), ("pure", 3), ("pure-radial", 3)):
         R.keep(f"orders-{t}{dim}", R.call("generate_orders_horton_order", utils.generate_orders_horton_order, 3, t, dim))
+
+
+def scn_rejected(R, rng):
+    """Calls that the library rejects (or that fail late): the EXCEPTIONAL exit must leave the arguments intact too.
+    Whether and how a call is rejected is not decided here."""
+    import grid.rtransform as rt
+    from grid import utils
+    from grid.atomgrid import AtomGrid
+    from grid.basegrid import Grid, OneDGrid
+    from grid.becke import BeckeWeights
+    from grid.coulomb import coulomb_gaussian_s, coulomb_potential
+    from grid.cubic import UniformGrid
+    from grid.hirshfeld import HirshfeldWeights
+    from grid.molgrid import MolGrid
+    from grid.ngrid import MultiDomainGrid
+    from grid.ode import solve_ode_bvp, solve_ode_ivp
+    from grid.periodicgrid import PeriodicGrid
+    from grid.poisson import solve_poisson_bvp
+
+    mk, ctx = R.mk, R.ctx
+    n = int(rng.integers(8, 20))
+    pts, w = mk(rng.normal(size=(n, 3)), "points"), mk(rng.uniform(0.1, 1, n), "weights")
+    f = mk(rng.normal(size=n), "func_vals")
+    g = Grid(pts, w)
+    rg = _radial(mk, rng, n=5)
+    atnums, atcoords = _molecule(mk, rng, natom=2)
+    atgrids = [AtomGrid(rg, degrees=[3], center=atcoords[i]) for i in range(2)]
+    size = sum(a.size for a in atgrids)
+    ind = mk(np.array([0, n // 2, n]), "indices")
+    x = mk(np.linspace(0.1, 1.0, 9), "x")
+    opts = mk.obj({"max_nodes": 3, "tol": 1e-12}, "ode_params")
+    btf = rt.BeckeRTransform(1e-3, 1.5)
+    from grid.onedgrid import GaussLegendre
+
+    at = AtomGrid(btf.transform_1d_grid(GaussLegendre(12)), degrees=[4])
+    dens = mk(np.exp(-np.sum(at.points**2, axis=1)), "density")
+    attempts = [
+        ("Grid", lambda: Grid(pts, w[:-1])),
+        ("Grid", lambda: Grid(pts, mk(rng.normal(size=(n, 2)), "weights-2d"))),
+        ("Grid.integrate", lambda: g.integrate(f[:-1])),
+        ("Grid.integrate", lambda: g.integrate(mk.obj([1.0, 2.0], "values-list"))),
+        ("Grid.integrate", lambda: g.integrate(f, mk(rng.normal(size=(n, 1)), "values-2d"))),
+        ("Grid.get_localgrid", lambda: g.get_localgrid(mk(np.zeros(2), "center-2"), 1.0)),
+        ("Grid.get_localgrid", lambda: g.get_localgrid(pts[0], -1.0)),
+        ("Grid.get_localgrid", lambda: g.get_localgrid(pts[0], np.nan)),
+        ("Grid.moments", lambda: g.moments(2, pts[0], f)),
+        ("Grid.moments", lambda: g.moments(2, pts[:2], mk(rng.normal(size=(n, 2)), "func-2d"))),
+        ("Grid.moments", lambda: g.moments(0, pts[:2], f, "pure-radial")),
+        ("Grid.moments", lambda: g.moments(mk.obj([0, 1], "orders-list"), pts[:2], f)),
+        ("Grid.moments", lambda: g.moments(1, pts[:2], f, "bogus")),
+        ("OneDGrid", lambda: OneDGrid(x, x, mk.obj((1.0, 0.0), "domain-desc"))),
+        ("OneDGrid", lambda: OneDGrid(x, x, (0.5, 2.0))),
+        ("AtomGrid", lambda: AtomGrid(rg, degrees=mk.obj([3, 5], "degrees-short"))),
+        ("AtomGrid", lambda: AtomGrid(rg, degrees=[3], center=mk(np.zeros(2), "center-2b"))),
+        ("AtomGrid", lambda: AtomGrid(rg, degrees=mk.obj([3] * 4 + [100000], "degrees-too-high"))),
+        ("AtomGrid.from_pruned", lambda: AtomGrid.from_pruned(rg, 1.0, mk.obj([0.5, 1.0], "r_sectors"), mk.obj([3, 5], "d_sectors-short"))),
+        ("AtomGrid.from_preset", lambda: AtomGrid.from_preset(1, "nonexistent", rg, atcoords[0])),
+        ("MolGrid", lambda: MolGrid(atnums, atgrids, mk(np.ones(size + 1), "aim-wrong-size"))),
+        ("MolGrid", lambda: MolGrid(atnums, atgrids, "becke")),
+        ("MolGrid.interpolate", lambda: MolGrid(atnums, atgrids, BeckeWeights()).interpolate(mk(np.ones(size), "fv"))),
+        ("MolGrid.from_preset", lambda: MolGrid.from_preset(atnums, atcoords[0], "coarse", rg)),
+        ("MolGrid.from_pruned", lambda: MolGrid.from_pruned(atnums, atcoords, 1.0, mk.obj([[0.5], [0.5], [0.5]], "r_sectors-3"), mk.obj([[3, 5]], "d_sectors-1"), rgrid=rg)),
+        ("BeckeWeights", lambda: BeckeWeights(mk.obj({1.5: 0.3}, "radii-bad-key"))),
+        ("BeckeWeights.generate_weights", lambda: BeckeWeights().generate_weights(pts, atcoords, atnums, select=mk.obj([0], "select"), pt_ind=ind)),
+        ("BeckeWeights.generate_weights", lambda: BeckeWeights().generate_weights(pts, atcoords, atnums, pt_ind=mk.obj([0], "pt_ind-1"))),
+        ("HirshfeldWeights.__call__", lambda: HirshfeldWeights()(pts, atcoords, mk(atnums.astype(float), "atnums-float"), ind)),
+        ("UniformGrid", lambda: UniformGrid(pts[0], mk(np.ones((3, 3)), "axes-singular"), mk(np.array([3, 3, 3]), "shape"))),
+        ("UniformGrid", lambda: UniformGrid(pts[0], mk(np.eye(3), "axes"), mk(np.array([3, 0, 3]), "shape-zero"))),
+        ("UniformGrid.interpolate", lambda: UniformGrid(pts[0], np.eye(3) * 0.3, np.array([7, 7, 7])).interpolate(pts[:2], f)),
+        ("UniformGrid.interpolate", lambda: UniformGrid(pts[0], np.eye(3) * 0.3, np.array([7, 7, 7])).interpolate(pts[:2], mk(np.ones(343), "values"), method="quintic")),
+        ("UniformGrid.closest_point", lambda: UniformGrid(pts[0], mk(np.eye(3) + 0.1, "axes-skew"), np.array([3, 3, 3])).closest_point(pts[1])),
+        ("UniformGrid.generate_cube", lambda: UniformGrid(pts[0], np.eye(3), np.array([3, 3, 3])).generate_cube(_tmp("x.cube"), f, atcoords, atnums)),
+        ("PeriodicGrid", lambda: PeriodicGrid(pts, w, mk(np.ones((3, 3)), "realvecs-singular"))),
+        ("PeriodicGrid", lambda: PeriodicGrid(pts, w, mk(np.ones((4, 3)), "realvecs-4"))),
+        ("PeriodicGrid.get_localgrid", lambda: PeriodicGrid(pts, w, np.eye(3) * 4).get_localgrid(pts[0], np.inf)),
+        ("MultiDomainGrid", lambda: MultiDomainGrid(mk.obj([], "empty-grid-list"))),
+        ("MultiDomainGrid", lambda: MultiDomainGrid(mk.obj([g, g], "two-grids"), num_domains=2)),
+        ("solve_ode_bvp", lambda: solve_ode_bvp(x, lambda t: t, mk.obj([1.0, 0.5, 1.0], "coeffs"), mk.obj([[0, 0, 0.0]], "bd_cond-short"))),
+        ("solve_ode_bvp", lambda: solve_ode_bvp(x, lambda t: t, [lambda t: t, 0.5, 1.0], mk.obj([[0, 0, 0.0], [1, 0, 1.0]], "bd_cond"), tol=1e-13, max_nodes=12)),
+        ("solve_ode_ivp", lambda: solve_ode_ivp(mk.obj((0.0, 5.0), "x_span"), lambda t: t, [1.0, 0.5, 1.0], mk.obj([0.0, 1.0], "y0"), rt.LinearFiniteRTransform(0.0, 1.0))),
+        ("solve_ode_ivp", lambda: solve_ode_ivp((0.0, 1.0), lambda t: t, [1.0, 0.5, 1.0], mk.obj([0.0], "y0-short"))),
+        ("solve_ode_ivp", lambda: solve_ode_ivp((0.0, 1.0), lambda t: t, mk.obj([1.0, "a", 1.0], "coeffs-bad"), [0.0, 1.0])),
+        ("solve_poisson_bvp", lambda: solve_poisson_bvp(at, dens, rt.InverseRTransform(btf), remove_large_pts=10.0, ode_params=opts)),
+        ("solve_poisson_bvp", lambda: solve_poisson_bvp(at, dens, btf, ode_params=opts)),
+        ("solve_poisson_bvp", lambda: solve_poisson_bvp(at, dens, rt.InverseRTransform(btf), boundary=1, ode_params=opts)),
+        ("coulomb_gaussian_s", lambda: coulomb_gaussian_s(mk(np.array([-1.0, 1.0]), "r-negative"), 1.0)),
+        ("coulomb_gaussian_s", lambda: coulomb_gaussian_s(x, -1.0)),
+        ("coulomb_potential", lambda: coulomb_potential(pts, pts[:2], x[:2], x[:2], centers_p=pts[:2])),
+        ("coulomb_potential", lambda: coulomb_potential(pts, pts[:2], x[:2], x[:2], pts[:2], x[:3], x[:2])),
+        ("generate_real_spherical_harmonics_scipy", lambda: utils.generate_real_spherical_harmonics_scipy(-1, x, x)),
+        ("generate_real_spherical_harmonics_scipy", lambda: utils.generate_real_spherical_harmonics_scipy(2, x, x[:-1])),
+        ("convert_cart_to_sph", lambda: utils.convert_cart_to_sph(mk(rng.normal(size=(4, 2)), "points-2col"))),
+        ("convert_cart_to_sph", lambda: utils.convert_cart_to_sph(pts, mk(np.zeros(2), "center-2c"))),
+        ("generate_orders_horton_order", lambda: utils.generate_orders_horton_order(2, "cartesian", 4)),
+        ("get_cov_radii", lambda: utils.get_cov_radii(atnums, "bogus")),
+        ("transform_1d_grid", lambda: rt.BeckeRTransform(0.1, 1.2).transform_1d_grid(OneDGrid(x, x, (0, 2)))),
+        ("InverseRTransform", lambda: rt.InverseRTransform(x)),
+    ]
+    raised = 0
+    for subject, fn in attempts:
+        try:
+            fn()
+            ctx.count("rejected-calls:accepted")
+        except (ValueError, TypeError, NotImplementedError, IndexError, KeyError, FileNotFoundError, AttributeError, AssertionError) as exc:
+            if not core.is_library_exception(exc) and not isinstance(exc, FileNotFoundError):
+                raise
+            raised += 1
+            ctx.count("rejected-calls:raised")
+    R.keep("raised", raised)
 
 
 # --- ODE ------------------------------------------------------------------------------------
@@ -1173,6 +1288,7 @@ SCENARIOS = {
     "periodic": 2.0,
     "ngrid": 2.0,
     "coulomb-utils": 2.0,
+    "rejected-calls": 2.0,
 }
 _SCN_FN = {
     "basegrid": scn_basegrid,
@@ -1185,6 +1301,7 @@ _SCN_FN = {
     "periodic": scn_periodic,
     "ngrid": scn_ngrid,
     "coulomb-utils": scn_coulomb_utils,
+    "rejected-calls": scn_rejected,
 }
 
 
